@@ -5,19 +5,24 @@ import os
 import random
 
 from .. import cli, gen, model, scenario
+from .. import core
 from ..core import Result
 from ..simcluster import QUERY_CMDS, SUBMIT_CMD, SimCluster
 
 ID = "C09"
 LEVEL = "fault_enumeration"
-TECHNIQUE = "runtime monitoring with fault enumeration: every position of every scheduler command of a run x failure kind, hard kills between submissions (simulated scheduler kills its parent) and inside each state-file write (open() proxy in the forked gwf process); oracle over simulator journal + state files"
+TECHNIQUE = "runtime monitoring with fault enumeration: every position of every scheduler command of a run x failure kind, hard kills between submissions (simulated scheduler kills its parent) and inside each state-file write (open() proxy in the forked gwf process), SIGKILL / KeyboardInterrupt at the k-th executed statement of gwf's own code (sys.monitoring LINE failpoint); oracle over simulator journal + state files"
 RULE = (
     "workflows of 3-7 targets (chains, diamonds, fans: dependencies cross the fault position) on simulated "
     "Slurm/SGE/LSF, spec hashing on in half of the cases, optionally an earlier clean partial run whose jobs are still "
-    "pending. For each workflow the fault list is enumerated systematically: k-th submit command (k=1..n) x {non-zero "
+    "pending, or an earlier COMPLETE run whose jobs have all failed / been cancelled since (the interrupted run then "
+    "re-submits targets that already have a tracked id). For each workflow the fault list is enumerated systematically: k-th submit command (k=1..n) x {non-zero "
     "exit, exit 0 + 'error:' on stderr, exit 0 + garbage stdout, SIGKILL of gwf right after acceptance, SIGKILL right "
     "before}, each start-up query (squeue/sacct/qstat/bjobs) x 3 failure kinds, kill inside the write of each state file "
-    "after 0 bytes / half / all bytes. Then with faults off: `gwf status` and `gwf run` while the adversary keeps the "
+    "after 0 bytes / half / all bytes, kill right before / right after each rename-into-place of a state file; and "
+    "statement-granular crash points (sys.monitoring LINE events in the forked gwf process): SIGKILL, or a "
+    "KeyboardInterrupt as Ctrl-C raises it, at the k-th statement executed in gwf's own source after the first submit "
+    "command was issued (k drawn per case over the whole remaining run; the site file:line is journaled). Then with faults off: `gwf status` and `gwf run` while the adversary keeps the "
     "earlier jobs pending. Oracle: the next invocations exit normally (state files parse); no target whose accepted job "
     "is still pending gets a second job; the remaining targets of the C02 plan (computed on the scheduler's TRUE job "
     "table) are submitted with prerequisites = ids accepted before the interruption; spec hash recorded => submission "
@@ -25,15 +30,16 @@ RULE = (
     "crossing it. distinct = (backend, command, position class, kind, hashing)."
 )
 ASSUMPTIONS = [
-    "simulated schedulers; crash points are between boundary events (scheduler commands, file open/write), not between arbitrary bytecodes",
+    "simulated schedulers; crash points are boundary events (scheduler commands, file open/write/rename) plus every statement boundary of gwf's own source files - not inside a statement, and not inside library code (json.dump, subprocess) other than through the write/rename failpoints",
     "local backend: a recording stand-in for the pool drops / resets the connection or answers garbage at the k-th enqueue",
 ]
 
+BLOCK = 80  # cases per workflow: one systematic walk through its fault list
 SUB_KINDS = ["exit1", "stderr_error", "garbage", "kill_parent_after", "kill_parent_before"]
 Q_KINDS = ["exit1", "stderr_error", "garbage"]
 
 
-QUICK_BUDGET = {"cases": 600, "deadline_s": 170, "case_timeout_s": 120, "floors": {"faults_injected": 196, "second_runs_checked": 196, "kill_points": 42, "write_kills": 40}}
+QUICK_BUDGET = {"cases": 600, "deadline_s": 170, "case_timeout_s": 120, "floors": {"faults_injected": 196, "second_runs_checked": 196, "kill_points": 30, "write_kills": 40, "line_faults": 50, "line_faults_fired": 40, "resubmission_histories": 60}}
 THOROUGH_FACTOR = 12  # thorough = the same workload with 12x the cases (floors scale along)
 
 
@@ -41,6 +47,61 @@ def budget(tier):
     from ..core import scaled_budget
 
     return scaled_budget(QUICK_BUDGET, tier, THOROUGH_FACTOR, noscale=())
+
+
+def _submit_lines():
+    """line numbers, in the checked tree's gwf/backends/base.py, of the two statements of TrackingBackend.submit that
+    end the window in which an accepted job id exists only in the scheduler's reply: the statement storing the id in the
+    table, and the call that writes the table to disk"""
+    try:
+        with open(os.path.join(core.REPO, "src", "gwf", "backends", "base.py")) as fh:
+            lines = fh.read().splitlines()
+    except OSError:
+        return None, None
+    start = next((i for i, ln in enumerate(lines) if ln.strip().startswith("def submit(self, target, dependencies)")), None)
+    if start is None:
+        return None, None
+    assign = save = None
+    for i in range(start + 1, len(lines)):
+        ln = lines[i]
+        if ln.strip().startswith("def "):
+            break
+        if assign is None and "self._tracked_jobs[target.name] = job_id" in ln:
+            assign = i + 1
+        if save is None and ln.strip() == "self._save_state()":
+            save = i + 1
+    return assign, save
+
+
+def site_in_window(site):
+    """Is the statement at which the process was killed / interrupted inside the recorded in-flight window?
+    kill: until the table holding the new id has been written (the _save_state() call of submit has returned);
+    interrupt: until the id has been stored in the table (close() saves the table on the way out)."""
+    if not site:
+        return False
+    f, func, line = site["file"], site["func"], site["line"]
+    if f.startswith("gwf/backends/") and f != "gwf/backends/base.py":
+        return True  # scheduler-specific submission code: the reply is being produced / parsed
+    if f != "gwf/backends/base.py":
+        return False
+    assign, save = _submit_lines()
+    if site["action"] == "interrupt":
+        return func == "submit" and assign is not None and line <= assign
+    if func in ("_save_state", "_get_state_path"):
+        return True
+    return func == "submit" and save is not None and line <= save
+
+
+def fault_in_window(f, site):
+    if f["where"] in ("submit", "enqueue"):
+        return True  # the scheduler command itself is hit (kill of gwf while the command runs / reply lost)
+    if f["where"] == "write":
+        return "backend-tracked" in f["suffix"]  # killed inside the write of the table
+    if f["where"] == "fsevent":
+        return "backend-tracked" in "".join(f["contains"])  # killed before an operation of that write
+    if f["where"] == "line":
+        return site_in_window(site)
+    return False  # e.g. after the table has been renamed into place: the id is durable
 
 
 def fault_list(sched, n, pre):
@@ -67,6 +128,12 @@ def fault_list(sched, n, pre):
     for n_ in (1, 2, 3):
         fl.append({"where": "afterreplace", "contains": ["backend-tracked"], "nth": n_})
     fl.append({"where": "afterreplace", "contains": ["spec-hashes"], "nth": 1})
+    # statement-granular crash points: hard kill / Ctrl-C (KeyboardInterrupt) at the k-th statement executed in
+    # gwf's own source after the first submission command was issued (k drawn per case)
+    for _ in range(8):
+        fl.append({"where": "line", "action": "kill"})
+    for _ in range(8):
+        fl.append({"where": "line", "action": "interrupt"})
     return fl
 
 
@@ -76,23 +143,31 @@ def gen_case(rng, idx, tier):
         dag = gen.gen_dag(rng, n_targets=n, p_noout=0.0, shapes=rng.choice(["chain", "diamond", "fan", "random"]))
         for t in dag["targets"]:
             t["spec"] = "echo %s\n" % t["name"]
-        return {"sched": "local", "dag": dag, "pre": rng.random() < 0.5, "hashing": rng.random() < 0.5, "fault": {"where": "enqueue", "k": rng.randint(1, n), "kind": rng.choice(["drop", "garbage", "wrong_kind", "reset"])}}
-    wf_rng = random.Random(idx // 60 * 7919 + 13)
-    sched = ["slurm", "slurm", "sge", "lsf", "slurm-noacct"][(idx // 60) % 5]
+        fault = {"where": "enqueue", "k": rng.randint(1, n), "kind": rng.choice(["drop", "garbage", "wrong_kind", "reset"])}
+        if rng.random() < 0.4:
+            fault = {"where": "line", "action": rng.choice(["kill", "interrupt"]), "nth": rng.randint(1, 150 * n + 80), "k": 0}
+        return {"sched": "local", "dag": dag, "pre": rng.random() < 0.5, "hashing": rng.random() < 0.5, "fault": fault}
+    wf_rng = random.Random(idx // BLOCK * 7919 + 13)
+    sched = ["slurm", "slurm", "sge", "lsf", "slurm-noacct"][(idx // BLOCK) % 5]
     n = wf_rng.randint(3, 7)
     dag = gen.gen_dag(wf_rng, n_targets=n, p_noout=0.0, shapes=wf_rng.choice(["chain", "diamond", "fan", "random"]))
     for t in dag["targets"]:
         t["spec"] = "echo %s\n" % t["name"]
     pre = wf_rng.random() < 0.55
+    # the earlier invocation was either a partial run whose job is still pending, or a COMPLETE run all of whose jobs
+    # have failed / were cancelled since: the interrupted run then re-submits targets that already have a tracked id
+    pre_failed = pre and wf_rng.random() < 0.45
     hashing = wf_rng.random() < 0.5
     noacct = sched == "slurm-noacct"
     sched = "slurm" if noacct else sched
-    fl = fault_list(sched, n - (1 if pre else 0), pre and not noacct)
+    fl = fault_list(sched, n - (1 if pre and not pre_failed else 0), pre and not noacct)
     if noacct:
         fl = [f for f in fl if f.get("cmd") != "sacct"]
     # systematic walk through the fault list, random beyond it
-    f = fl[(idx % 60) % len(fl)] if (idx % 60) < len(fl) else rng.choice(fl)
-    return {"sched": sched, "dag": dag, "pre": pre, "hashing": hashing, "fault": f, "noacct": noacct}
+    f = dict(fl[idx % BLOCK] if (idx % BLOCK) < len(fl) else rng.choice(fl))
+    if f["where"] == "line":
+        f["nth"] = rng.randint(1, 185 * (n - (1 if pre and not pre_failed else 0)) + 40)
+    return {"sched": sched, "dag": dag, "pre": pre, "pre_failed": pre_failed, "hashing": hashing, "fault": f, "noacct": noacct}
 
 
 def truth_tracked(sim, sched):
@@ -130,15 +205,32 @@ def run_local(case):
                 res.violation("crash", "clean partial local run failed", **cli.crash_witness(r))
                 return res
         accepted_before = {v["name"]: t for t, v in srv.tasks.items()}
-        srv.fault = {"nth": srv.enqueues + f["k"], "kind": f["kind"]}
-        r1 = cli.gwf(proj.root, ["run"], env, audit=False, timeout=90)
-        srv.fault = None
+        site = None
+        if f["where"] == "line":
+            r1 = cli.gwf(proj.root, ["run"], env, timeout=90, failpoint={"kind": "line", "action": f["action"], "nth": f["nth"], "arm": "socket.connect"})
+            site = next((e for e in r1.audit if e.get("ev") == "linefp"), None)
+            res.mon("line_faults")
+            if site:
+                res.mon("line_faults_fired")
+        else:
+            srv.fault = {"nth": srv.enqueues + f["k"], "kind": f["kind"]}
+            r1 = cli.gwf(proj.root, ["run"], env, audit=False, timeout=90)
+            srv.fault = None
         res.mon("faults_injected")
         truth = {}
         for t, v in sorted(srv.tasks.items()):
             truth[v["name"]] = t
         accepted_now = {n: t for n, t in truth.items() if accepted_before.get(n) != t}
-        ctx = {"sched": "local", "fault": f, "rc1": r1.rc, "accepted_in_faulty_run": accepted_now, "accepted_before": accepted_before, "err1": r1.err[-500:]}
+        last_accepted = max(accepted_now, key=lambda n: accepted_now[n]) if accepted_now else None
+        res.obs("interrupted_local_run", {"fault": f, "rc": r1.rc, "site": site, "accepted_in_that_run": accepted_now, "state_files_after": proj.state_files()})
+
+        def mech(base, involved):
+            # same single in-flight window as on the clusters (see run_case)
+            if site and last_accepted is not None and involved and set(involved) <= {last_accepted} and site_in_window(site):
+                return "inflight-id-lost-on-hard-kill" if site["action"] == "kill" else "inflight-id-lost-on-interrupt"
+            return base
+
+        ctx = {"sched": "local", "fault": f, "site": site, "rc1": r1.rc, "accepted_in_faulty_run": accepted_now, "accepted_before": accepted_before, "err1": r1.err[-500:]}
         dup1 = sorted(n for n in accepted_now if n in accepted_before)
         if dup1:
             res.violation("duplicate-in-interrupted-run", "the interrupted local run enqueued %s again" % dup1, **ctx)
@@ -166,11 +258,11 @@ def run_local(case):
         tracked_file = proj.state_files().get("local-backend-tracked.json", {})
         dup = sorted(n for n in names2 if n in truth)
         if dup:
-            res.violation("duplicate-after-interruption", "local: targets %s got a second task although their accepted task (%s) is still pending" % (dup, {n: truth[n] for n in dup}), tracked_file=tracked_file, **ctx)
+            res.violation(mech("duplicate-after-interruption", dup), "local: targets %s got a second task although their accepted task (%s) is still pending" % (dup, {n: truth[n] for n in dup}), tracked_file=tracked_file, **ctx)
         missing = sorted(set(want_submit) - set(names2))
         extra = sorted(set(names2) - set(want_submit) - set(dup))
         if missing or extra:
-            res.violation("plan-after-interruption", "local: second run enqueued %s; expected %s" % (sorted(names2), sorted(want_submit)), tracked_file=tracked_file, **ctx)
+            res.violation(mech("plan-after-interruption", missing + extra), "local: second run enqueued %s; expected %s" % (sorted(names2), sorted(want_submit)), tracked_file=tracked_file, **ctx)
         newid = {}
         for m in enq:
             newid[m["name"]] = max(t for t, v in srv.tasks.items() if v["name"] == m["name"])
@@ -179,8 +271,12 @@ def run_local(case):
                 continue
             want_ids = sorted(newid[d] if d in newid else truth.get(d) for d in want_prereq[m["name"]])
             if sorted(m["deps"], key=str) != sorted(want_ids, key=str):
-                res.violation("prereq-after-interruption", "local: %s enqueued with deps %s; the tasks accepted for its incomplete deps are %s" % (m["name"], m["deps"], want_ids), tracked_file=tracked_file, **ctx)
+                res.violation(mech("prereq-after-interruption", [d for d in want_prereq[m["name"]] if d not in newid]), "local: %s enqueued with deps %s; the tasks accepted for its incomplete deps are %s" % (m["name"], m["deps"], want_ids), tracked_file=tracked_file, **ctx)
         n = len(deps) - (1 if case["pre"] else 0)
+        if f["where"] == "line":
+            res.sig = ("local", "line", f["action"], (site["file"], site["line"]) if site else None, case["hashing"])
+            res.nontrivial = site is not None
+            return res
         pos = "first" if f["k"] == 1 else ("last" if f["k"] >= n else "inside")
         res.sig = ("local", "enqueue", pos, f["kind"], case["hashing"], case["pre"])
         res.nontrivial = pos == "inside"
@@ -212,11 +308,20 @@ def run_case(case):
         env = cli.env_for(proj.simdir, (sched,))
         first = model.topo_order(deps)[0]
         if case["pre"]:
-            r = cli.gwf(proj.root, ["run", first], env)
+            r = cli.gwf(proj.root, ["run"] + ([] if case.get("pre_failed") else [first]), env)
             if r.rc != 0:
-                res.violation("crash", "clean partial run failed", **cli.crash_witness(r))
+                res.violation("crash", "clean earlier run failed", **cli.crash_witness(r))
                 return res
+            if case.get("pre_failed"):
+                # every job of that run ends badly: roots fail, everything waiting on them is cancelled
+                for jid in sorted(sim.runnable(), key=int):
+                    sim.start(jid)
+                    sim.finish(jid, exit=1)
+                for jid in sorted(sim.pending(), key=int):
+                    sim.cancel(jid)
+                res.mon("resubmission_histories")
         accepted_before = truth_tracked(sim, sched)
+        live_before = {n for n, st_ in scenario.backend_view(sim, accepted_before, sched).items() if st_ in ("submitted", "running")}
         # ---- the interrupted run
         seq0 = sim.seq()
         fp = None
@@ -228,12 +333,19 @@ def run_case(case):
             fp = {"kind": "kill_at_fs_event", "contains": f["contains"], "nth": f["nth"]}
         elif f["where"] == "afterreplace":
             fp = {"kind": "kill_after_replace", "contains": f["contains"], "nth": f["nth"]}
+        elif f["where"] == "line":
+            fp = {"kind": "line", "action": f["action"], "nth": f["nth"], "arm": [SUBMIT_CMD[sched]]}
         else:
             fp = {"kind": "kill_in_write", "suffix": f["suffix"], "nth": 1, "after": f["after"], "half_len": 9}
         r1 = cli.gwf(proj.root, ["run"], env, failpoint=fp)
         sim.set_faults([])
         res.mon("faults_injected")
         killed = (r1.rc is not None and r1.rc < 0) or r1.rc == 137
+        site = next((e for e in r1.audit if e.get("ev") == "linefp"), None)
+        if f["where"] == "line":
+            res.mon("line_faults")
+            if site:
+                res.mon("line_faults_fired")
         if f["where"] in ("write", "fsevent", "afterreplace"):
             res.mon("write_kills")
             if f.get("suffix") == "spec-hashes.json" and not case["hashing"]:
@@ -244,7 +356,9 @@ def run_case(case):
         accepted_now = {s["name"]: s["id"] for s in subs1}
         truth = truth_tracked(sim, sched)
         interruption = "kill" if killed else ("error" if r1.rc != 0 else "none")
-        res.obs("interrupted_run", {"fault": f, "rc": r1.rc, "interruption": interruption, "accepted_before": accepted_before, "accepted_in_that_run": accepted_now, "state_files_after": proj.state_files()})
+        if site and site["action"] == "interrupt":
+            interruption = "interrupt"
+        res.obs("interrupted_run", {"fault": f, "rc": r1.rc, "interruption": interruption, "accepted_before": accepted_before, "accepted_in_that_run": accepted_now, "state_files_after": proj.state_files(), "site": site})
         ctx = {"sched": sched, "fault": f, "rc1": r1.rc, "interruption": interruption, "accepted_in_faulty_run": accepted_now, "accepted_before": accepted_before, "err1": r1.err[-400:]}
 
         last_accepted = subs1[-1]["name"] if subs1 else None
@@ -254,12 +368,16 @@ def run_case(case):
             # recorded that job's id (reply not read yet / state write of exactly that id not finished).
             # Only that single in-flight job may be forgotten (recorded finding); everything accepted
             # earlier in the run - or in earlier invocations - has to be remembered.
-            if interruption == "kill" and last_accepted is not None and involved and set(involved) <= {last_accepted}:
+            if last_accepted is None or not involved or not set(involved) <= {last_accepted} or not fault_in_window(f, site):
+                return base
+            if interruption == "kill":
                 return "inflight-id-lost-on-hard-kill"
+            if interruption == "interrupt":
+                return "inflight-id-lost-on-interrupt"
             return base
 
         # the interrupted run itself must not submit a second job for a target whose earlier job is pending
-        dup1 = sorted(n for n in accepted_now if n in accepted_before)
+        dup1 = sorted(n for n in accepted_now if n in live_before)
         if dup1:
             res.violation("duplicate-in-interrupted-run", "the interrupted run submitted %s again although their earlier jobs %s are still pending" % (dup1, {n: accepted_before[n] for n in dup1}), **ctx)
 
@@ -313,14 +431,17 @@ def run_case(case):
                 res.violation(mech("prereq-after-interruption", involved), "%s submitted with prerequisites %s; the jobs accepted for its incomplete deps are %s" % (s["name"], s["prereq_ids"], sorted(map(str, want_ids))), tracked_file=tracked_file, **ctx)
         # signature
         if f["where"] == "submit":
-            n = len(names) - (1 if case["pre"] else 0)
+            n = len(names) - (1 if case["pre"] and not case.get("pre_failed") else 0)
             pos = "first" if f["k"] == 1 else ("last" if f["k"] >= n else "inside")
             crossing = any(True for _ in [0])
-            res.sig = (sched, "submit", pos, f["kind"], case["hashing"], case["pre"])
+            res.sig = (sched, "submit", pos, f["kind"], case["hashing"], case["pre"], bool(case.get("pre_failed")))
             res.nontrivial = pos == "inside"
         elif f["where"] == "query":
             res.sig = (sched, f["cmd"], f["kind"], case["hashing"], case["pre"])
             res.nontrivial = case["pre"]
+        elif f["where"] == "line":
+            res.sig = (sched, "line", f["action"], (site["file"], site["line"]) if site else None, case["hashing"])
+            res.nontrivial = site is not None
         elif f["where"] == "afterreplace":
             res.sig = (sched, "afterreplace", f["contains"][0], f["nth"], case["hashing"], case["pre"], killed)
             res.nontrivial = True
